@@ -10,7 +10,7 @@ The translated code works on *strings*, as the source does; the model `Op.FllIO`
 * `parameters.split()` = `Py.split` (the vocabulary of the other ties), and
 * `to_float(x)` for a string `x`: a reader `rd : String → Option Num` that is a **parameter** of every translated function
   and of every tie theorem (`none` = `ValueError`).  `tokOf rd` classifies a word the way the text layer of the model does
-  (`Op.FllIO.numTokOf` is `tokOf Dec.parse`, by `rfl`), so the theorems hold for CPython's `float(text)` whatever it accepts.
+  (`Op.FllIO.numTokOf` is `tokOf Op.FllIO.parseNum`, by `rfl`), so the theorems hold for CPython's `float(text)` whatever it accepts.
 
 `Py.FllIn.parseVals` is what the tie theorem of `Term._parse` proves the method returns (the `configure` methods call it);
 `toXY` is `Discrete.to_xy(l[0::2], l[1::2])` as the flat row-major list of the `n × 2` array (= the words of `l` in order).
